@@ -96,7 +96,7 @@ def bit (c : Char) : Bool := c = '1'
 def parseCase (toks : List String) : Option Case := do
   let (head, r) ← (match toks with | k :: r => some (k.splitOn ".", r) | [] => none)
   let (kind, s, c) ← (match head with | [k, s, c] => some (k, s.toList, c.toList) | _ => none)
-  if kind ≠ "call" ∧ kind ≠ "h2" ∧ kind ≠ "h2x" then none
+  if kind ≠ "call" ∧ kind ≠ "h2" ∧ kind ≠ "h2x" ∧ !kind.startsWith "callz-" then none
   let (q, sr) ← (match s with | ['S', a, b] => some (bit a, bit b) | _ => none)
   let cr ← (match c with | ['C', a] => some (bit a) | _ => none)
   let (y, r) ← pNat r
@@ -119,7 +119,7 @@ def parseCase (toks : List String) : Option Case := do
   let (_, r) ← pExpect "RSCUT" r
   let (rsCut, r) ← pCounted pStep r
   if r ≠ [] then none
-  some { h2 := kind ≠ "call", srvReqStream := q, srvRespStream := sr, cliRespStream := cr, yieldThr := y,
+  some { h2 := kind = "h2" ∨ kind = "h2x", srvReqStream := q, srvRespStream := sr, cliRespStream := cr, yieldThr := y,
          rqMd, rq, rqCut, reads, early, initMd, body, fin, rsCut }
 
 /-! ### running the model -/
